@@ -78,7 +78,16 @@ pub fn interval_strategy(finite_max: f32) -> BoxedStrategy<(Fl, Fl)> {
         1 => (1u32..=1000).prop_map(|i| i as f32),
         1 => gens::fl_log().prop_map(|f| f.0.abs()),
     ];
-    (centre, width, any::<bool>())
+    // narrow-to-one-period boxes at large magnitudes: the periodic functions
+    // must place every bound in the right quadrant (finding F20)
+    let large_angle = (20u32..=78, any::<bool>(), 0u32..=7000, 0u32..=1000).prop_map(move |(e, neg, w, frac)| {
+        let mag = 10f32.powf(e as f32 / 10.0) * (1.0 + frac as f32 / 1000.0);
+        let c = if neg { -mag } else { mag };
+        let half = w as f32 / 2000.0;
+        let (lo, hi) = (c - half, c + half);
+        (Fl(lo.clamp(-finite_max, finite_max)), Fl(hi.clamp(-finite_max, finite_max)))
+    });
+    let general = (centre, width, any::<bool>())
         .prop_map(move |(c, w, straddle)| {
             let (mut lo, mut hi) = if straddle {
                 (-w, w * 0.7)
@@ -96,8 +105,8 @@ pub fn interval_strategy(finite_max: f32) -> BoxedStrategy<(Fl, Fl)> {
                 }
             };
             (Fl(cl(lo)), Fl(cl(hi)))
-        })
-        .boxed()
+        });
+    prop_oneof![9 => general, 1 => large_angle].boxed()
 }
 
 pub fn sample_in(lo: f32, hi: f32, t: u16) -> f32 {
